@@ -154,7 +154,7 @@ class CriticalPathCalculator:
         for k, v in self.__links.items():
             # print(k, f"{v.start.start_units} - {v.start.end_units}", f"{v.end.start_units} - {v.end.end_units}")
             r = v.end.end_units - v.start.start_units - v.units
-            if r == 0:
+            if abs(r) <= 1e-9 * max(1.0, end.start_units):
                 res.append(self.__tasks[k])
 
         if self.__end_date is None:
